@@ -170,7 +170,43 @@ func shapeSameBaseName(r *rng.R, plain bool) c10Shape {
 	return c10Shape{fmt.Sprintf("%d directories, %d services in the root", len(dirs), strings.Count(sb.String(), "service ")), "shape: files sharing a base name", files, append(order, "root.thrift")}
 }
 
-var c10ShapeGens = []func(*rng.R, bool) c10Shape{shapeConstChains, shapeServiceChain, shapeSameBaseName}
+// shapeImportNames: included files whose package names compete with packages the generated
+// code imports anyway (wire, stream, fmt, …) and with the numbered names handed out on a
+// clash (wire2, wire3): the name each package is imported under depends on what is taken
+// already, i.e. on the order of the imports. Some includes are used in types, some only included
+// (finding D75: the IDL-embedding code imported those while ranging over a map).
+func shapeImportNames(r *rng.R, plain bool) c10Shape {
+	pool := []string{"wire", "wire2", "wire3", "stream", "stream2", "fmt", "fmt2", "errors", "errors2", "strings", "zapcore", "multierr", "thriftreflect", "thriftreflect2"}
+	names := shuffled(r, pool)[:2+r.Intn(5)]
+	if plain {
+		names = []string{"wire", "wire2", "wire3"}
+	}
+	files := map[string]string{}
+	var order []string
+	var sb strings.Builder
+	for _, n := range names {
+		files[n+".thrift"] = fmt.Sprintf("struct Item {\n  1: optional string v\n}\n\nconst i32 K = %d\n", len(n))
+		order = append(order, n+".thrift")
+	}
+	for _, n := range shuffled(r, names) {
+		fmt.Fprintf(&sb, "include \"./%s.thrift\"\n", n)
+	}
+	sb.WriteString("\nstruct Root {\n  1: optional string s\n")
+	used := 0
+	if !plain {
+		for i, n := range names {
+			if r.Chance(1, 4) {
+				fmt.Fprintf(&sb, "  %d: optional %s.Item f%d\n", i+2, n, i)
+				used++
+			}
+		}
+	}
+	sb.WriteString("}\n")
+	files["root.thrift"] = sb.String()
+	return c10Shape{fmt.Sprintf("%d includes named like imported packages, %d used in types", len(names), used), "shape: includes competing for import names", files, append(order, "root.thrift")}
+}
+
+var c10ShapeGens = []func(*rng.R, bool) c10Shape{shapeConstChains, shapeServiceChain, shapeSameBaseName, shapeImportNames}
 
 // c10ShapeSizes: order dependences of the generator act on Go's natural map
 // order only (the link-order hook steers the compiler, not the generator), and
